@@ -9,11 +9,13 @@ Both touch CrossHair only; `selftest()` in harness/conformance.py compares symbo
 import re
 
 APPLIED = []
+DEBUG_HITS = []
 
 
 def apply():
     if APPLIED:
         return APPLIED
+    import crosshair.core_and_libs  # noqa: F401  (performs CrossHair's own patch registrations first)
     from crosshair.libimpl import relib
     from crosshair import core
     from crosshair.tracers import NoTracing
@@ -84,6 +86,7 @@ def apply():
     if os.environ.get('VP_NO_PERF_PATCHES') != '1':
         APPLIED.extend(apply_perf())
         APPLIED.append(apply_condition_cache())
+    APPLIED.append(apply_symbolic_format())
     return APPLIED
 
 
@@ -249,3 +252,74 @@ def apply_condition_cache():
     cp.CompositeConditionParser.get_fn_conditions = get_fn_conditions
     cp.CompositeConditionParser._vp_cached = True
     return 'CompositeConditionParser.get_fn_conditions memoised per function object'
+
+
+def apply_symbolic_format():
+    """str.format on a SYMBOLIC template: CrossHair realises the whole template (value-by-value enumeration of every
+    symbolic character in it).  PyDBML's SQL reference renderer formats a template that contains user names.  This
+    model keeps the template symbolic for the simple grammar  literal | '{{' | '}}' | '{' keyword-name '}'  and falls
+    back to CrossHair's own (realising) model for anything else (positional fields, conversions, format specs,
+    attribute / index access).  Cross-checked against native str.format by harness/conformance.py."""
+    from crosshair import core
+    from crosshair.libimpl import builtinslib as bl
+    from crosshair.tracers import NoTracing, ResumedTracing
+    orig = core._PATCH_REGISTRATIONS.get(str.format)
+    if orig is None or getattr(orig, '_vp_symbolic_format', False):
+        return 'str.format model unchanged'
+
+    def _str_format(self, /, *a, **kw):
+        with NoTracing():
+            symbolic = isinstance(self, bl.AnySymbolicStr)
+        if not symbolic or a:
+            return orig(self, *a, **kw)
+        DEBUG_HITS.append(1)
+        n = len(self)
+        pieces = []
+        start = 0
+        i = 0
+        while i < n:
+            ch = self[i]
+            if ch == '{':
+                if i + 1 < n and self[i + 1] == '{':
+                    pieces.append(self[start:i + 1])
+                    i += 2
+                    start = i
+                    continue
+                j = i + 1
+                while j < n and self[j] != '}':
+                    c2 = self[j]
+                    if c2 == '{' or c2 == '!' or c2 == ':' or c2 == '.' or c2 == '[':
+                        return orig(self, *a, **kw)
+                    j += 1
+                if j >= n:
+                    raise ValueError("expected '}' before end of string")
+                name = core.realize(self[i + 1:j])
+                if name == '' or name.isdigit():
+                    return orig(self, *a, **kw)
+                pieces.append(self[start:i])
+                val = kw[name]
+                pieces.append(val if isinstance(val, str) else format(val, ''))
+                i = j + 1
+                start = i
+            elif ch == '}':
+                if i + 1 < n and self[i + 1] == '}':
+                    pieces.append(self[start:i + 1])
+                    i += 2
+                    start = i
+                    continue
+                raise ValueError("Single '}' encountered in format string")
+            else:
+                i += 1
+        pieces.append(self[start:n])
+        out = ''
+        for p in pieces:
+            out = out + p
+        return out
+
+    _str_format._vp_symbolic_format = True
+    core._PATCH_REGISTRATIONS[str.format] = _str_format
+
+    def format_method(self, *a, **kw):
+        return _str_format(self, *a, **kw)
+    bl.AnySymbolicStr.format = format_method
+    return "str.format: symbolic template kept symbolic for literal / '{{' / '}}' / '{name}' (fallback: CrossHair's realising model)"
